@@ -33,7 +33,7 @@ struct Job {
 /// Classifies an observation: None = the property held.
 fn judge(o: &Obs, input_len: usize, archive: bool) -> Option<&'static str> {
     // a reader caught in a pointer cycle either just spins or grows a vector while spinning
-    if archive && (o.outcome == "hang" || (o.max_alloc > alloc_limit(input_len) && o.millis >= 1000)) { return Some("loop") }
+    if archive && (o.outcome == "hang" || (o.max_alloc > alloc_limit(input_len) && o.cpu_ms >= 500)) { return Some("loop") }
     if o.max_alloc > alloc_limit(input_len) || (o.outcome == "panic" && o.detail.contains("capacity overflow")) { return Some("alloc") }
     match o.outcome.as_str() { "panic" => Some("panic"), "abort" | "exit" => Some("abort"), "hang" => Some("hang"), _ => None }
 }
@@ -85,7 +85,7 @@ fn evaluate(rep: &mut Report, job: &Job, obs: &Obs, samples: bool) {
     rep.eval(PID);
     rep.trace(PID);
     let observed = json!({"outcome": obs.outcome, "consumed": obs.consumed, "max_single_allocation": obs.max_alloc,
-                          "allocation_limit": alloc_limit(job.input_len), "detail": obs.detail, "signal": obs.signal, "millis": obs.millis});
+                          "allocation_limit": alloc_limit(job.input_len), "detail": obs.detail, "signal": obs.signal, "millis": obs.millis, "cpu_ms": obs.cpu_ms});
     match judge(obs, job.input_len, job.sig.starts_with("archive/")) {
         Some(effect) => {
             rep.nontrivial(PID, job.key.clone());
